@@ -5,7 +5,7 @@ import pandas as pd
 
 from .. import scenes, obs, pipeline, oracles
 
-SIZES = {'quick': dict(generic=900, flat=420, tables_n=3), 'thorough': dict(generic=12000, flat=4000, tables_n=4)}
+SIZES = {'quick': dict(generic=600, flat=300, tables_n=3), 'thorough': dict(generic=12000, flat=4000, tables_n=4)}
 HSETS = {'low': [1070.0, 2570.0, 4070.0, 5570.0], 'high': [9950.0, 10030.0, 10980.0, 12990.0]}
 
 
